@@ -35,8 +35,13 @@ class ChansSpec(SeqSpec):
             nin, nout = 1, rng.choice([0, 1, 1, 2, 2, 3])
         else:
             nin, nout = [0, 1, 2, 3, 4, 7][idx % 6] if idx % 5 != 3 else rng.choice([0, 1, 2, 3, 4, 5, 7]), 1
-        big = nin >= 5
+        big = nin >= 4
+        # (the matcher enumerates every schedule compatible with the recorded events: wide scenarios get few buffers
+        #  and frequent quiescence points so that the set of compatible model states stays small)
         caps = [rng.choice([0, 0, 0, 1, 2]) for _ in range(nin)] + [rng.choice([0, 0, 1, 2] if not big else [0, 0, 1]) for _ in range(nout)]
+        if big:
+            keep = rng.randrange(nin)
+            caps = [c if (i == keep or i >= nin) else 0 for i, c in enumerate(caps)]
         cmds = []          # per input: list of ("send", v) / ("close",)
         for k in range(nin):
             style = rng.random()
@@ -65,7 +70,7 @@ class ChansSpec(SeqSpec):
         for j in range(nout):
             want = total + 1 if rng.random() < 0.75 else rng.randrange(0, total + 1)
             while want > 0:
-                n = rng.choice([1, 1, 2, want])
+                n = rng.choice([1, 1, 2, want] if not big else [1, 1, 2])
                 n = min(n, want)
                 permits.append(["permit", j, n])
                 want -= n
@@ -77,11 +82,14 @@ class ChansSpec(SeqSpec):
             pos = len(ops) if late_consumer else rng.randrange(0, len(ops) + 1)
             ops.insert(pos, p)
         out = []
-        qp = rng.choice([0.0, 0.2, 0.5, 1.0])
+        qp = rng.choice([0.0, 0.2, 0.5, 1.0] if not big else [0.6, 1.0])
+        since = 0
         for o in ops:
             out.append(o)
-            if rng.random() < qp:
+            since += 1
+            if rng.random() < qp or (big and since >= 3):
                 out.append(["quiesce"])
+                since = 0
         cfg = {"kind": "replicate" if rep else "merge", "nin": nin, "nout": nout, "caps": caps}
         return {"component": "chans", "cfg": cfg, "ops": out}
 
